@@ -45,7 +45,7 @@ PROFILES = {
     "leftrec": dict(leftrec=1.0, p_memo=0.1, p_position=0.3, p_check=0.4, p_probe=0.5),
     "ws": dict(p_noskip=0.5, p_user_ws=0.45, p_include=0.25, w_string=3, p_position=0.3, p_ws_lit=0.15),
     "position": dict(p_single_lit_string=0.3, p_insens=0.25, p_box=0.3, p_position=0.8, p_unicode=0.3, w_string=4, w_enum=3, p_memo=0.15, leftrec=0.15),
-    "errors": dict(p_lookahead=0.25, p_check=0.25, w_extern=1, w_char=2, p_ccheck=0.3, p_eoi_root=0.8),
+    "errors": dict(p_lookahead=0.25, p_check=0.25, w_extern=4, w_char=2, p_ccheck=0.3, p_eoi_root=0.8),
     "include": dict(p_string_include=0.3, p_fields_in_string=0.5, w_string=4, p_user_ws=0.25, p_lonely_include=0.35, p_nest_include=0.6, p_name_family=0.3, p_include=0.6, p_noskip=0.4, p_position=0.3, p_memo=0.15, p_check=0.15, w_struct=8,
                     w_unit=2, w_alias=0, w_enum=1),
     "userfn": dict(p_check=0.6, p_ccheck=0.6, w_extern=4, w_char=4, user_ctx=0.4, w_string=2, w_enum=2, w_alias=2, leftrec=0.3),
